@@ -10,7 +10,10 @@ def solve : P String := do
 
 def detinv : P String := do
   let a : Mat K ← pMat
-  pure s!"det {wRes Wire.wr (Mat.determinant a)} inv {wRes wMat (Mat.inverse a)}"
+  let lu := match Mat.luDecomp a with
+    | .ok s => s!"{s.pivots} {wMat s.lu} {wMat s.perm}"
+    | .error e => "!" ++ toString e
+  pure s!"det {wRes Wire.wr (Mat.determinant a)} inv {wRes wMat (Mat.inverse a)} lu {lu}"
 
 def exec (op : String) : P (Option String) := do
   match op with
